@@ -72,7 +72,7 @@ static void child(const std::string& line, const char* outpath) {
         default: break;
         }
     });
-    vsched::set_abort_handler([&](vsched::Result& r) { write_out(outpath, r); _exit(0); });
+    vsched::set_abort_handler([&](vsched::Result& r) { write_out(outpath, r); { vf::cov_flush(); _exit(0); } });
     auto res = vsched::run([&] {
         id0 = vsched::Runtime::new_object_id() + 1;
         vsched::set_guided_load_filter([&](int objid) { return objid == id0 + 3; });     // busy_
@@ -109,7 +109,7 @@ static void child(const std::string& line, const char* outpath) {
         delete pool;
     }, cfg);
     write_out(outpath, res);
-    _exit(0);
+    { vf::cov_flush(); _exit(0); }
 }
 
 int main(int argc, char** argv) {
